@@ -378,6 +378,113 @@ fn downgrade_family(g: &mut G, ctx: &RunCtx) -> RunReport {
     }
 }
 
+/// A Location spelled with backslashes (`/\host/path`, `\\host/path`): not a URI reference by the book; browsers
+/// and WHATWG URL parsers read it as `//host/path`, RFC 3986 would read a path on the same host.  Either way
+/// the next hop's proxy decision belongs to the host that hop goes to - the one thing that must not happen is
+/// a request for the new host under the old host's decision (or the other way round).
+fn backslash_location_family(g: &mut G, ctx: &RunCtx) -> RunReport {
+    use crate::peers::{Act, Script};
+    g.probe("family:location-spelled-with-backslashes");
+    let status = *g.pick(&[301u16, 302, 307, 308]);
+    let spelling = *g.pick(&["/\\b.test/next", "\\\\b.test/next", "/\\/b.test/next", "\\/b.test/next"]);
+    // which of the two hosts is exempt from the proxy
+    let a_direct = g.chance(1, 2);
+    let a_ip: IpAddr = "10.0.0.1".parse().unwrap();
+    let b_ip: IpAddr = "10.0.0.2".parse().unwrap();
+    let p_ip: IpAddr = PROXY_IP.parse().unwrap();
+    let sim = Sim::new(ctx.sim_config());
+    sim.add_host("a.test", vec![a_ip]);
+    sim.add_host("b.test", vec![b_ip]);
+    sim.add_host(PROXY_HOST, vec![p_ip]);
+    let seen = Arc::new(Mutex::new(Seen::default()));
+    let loc = spelling.to_string();
+    for (ip, port) in [(a_ip, 80u16), (b_ip, 80), (p_ip, PROXY_PORT)] {
+        let seen2 = seen.clone();
+        let loc = loc.clone();
+        sim.add_listener(
+            ip,
+            port,
+            ConnectBehaviour::Accept { latency_ns: NS_PER_MS },
+            Some(Box::new(move |_i| {
+                let loc = loc.clone();
+                Box::new(HttpPeer::new(
+                    Arc::new(move |r, _c| {
+                        let mut s = Script::default();
+                        if r.target.ends_with("/start") {
+                            s.acts.push(Act::Send(format!("HTTP/1.1 {} Moved\r\nLocation: {}\r\nContent-Length: 0\r\n\r\n", status, loc).into_bytes()));
+                        } else {
+                            s.acts.push(Act::Send(b"HTTP/1.1 200 OK\r\nContent-Length: 2\r\n\r\nok".to_vec()));
+                        }
+                        s.acts.push(Act::Fin);
+                        s
+                    }),
+                    seen2.clone(),
+                ))
+            })),
+        );
+    }
+    let out = sim.run(|| {
+        let pu = url::Url::parse(&format!("http://{}:{}", PROXY_HOST, PROXY_PORT)).unwrap();
+        let ps = attohttpc::ProxySettings::builder().http_proxy(pu).add_no_proxy_host(if a_direct { "a.test" } else { "b.test" }).build();
+        match attohttpc::get("http://a.test/start").proxy_settings(ps).send() {
+            Ok(r) => Ok((r.status().as_u16(), r.url().to_string())),
+            Err(e) => Err(err_kind(&e)),
+        }
+    });
+    let mut stats = Stats::default();
+    stats.absorb(&out.history);
+    let desc = format!("http://a.test/start -> {} Location: {} ; no-proxy host {}", status, spelling, if a_direct { "a.test" } else { "b.test" });
+    match out.history.conns.len() {
+        0 | 1 => g.probe("backslash-location:not-followed"),
+        _ if out.history.conns[1].addr.ip() == out.history.conns[0].addr.ip() => g.probe("backslash-location:second-hop-to-the-same-peer"),
+        _ => g.probe("backslash-location:second-hop-to-another-peer"),
+    }
+    let verdict = match &out.result {
+        None => violation("hang", "run torn down"),
+        Some(Err(m)) => violation("panic", m.clone()),
+        Some(Ok(res)) => (|| {
+            let seen = seen.lock().unwrap();
+            let conns = &out.history.conns;
+            if conns.is_empty() {
+                return violation("backslash:nothing-dialled", desc.clone());
+            }
+            // first hop
+            let first_want = if a_direct { a_ip } else { p_ip };
+            if conns[0].addr.ip() != first_want {
+                return violation("backslash:first-hop-peer", format!("the first hop dialled {} ({})", conns[0].addr, desc));
+            }
+            if conns.len() < 2 {
+                // refusing the Location is fine
+                return if res.is_err() { Verdict::Pass } else { violation("backslash:not-followed", format!("{:?} after one connection ({})", res, desc)) };
+            }
+            let second = conns[1].addr.ip();
+            let target = match seen.requests.iter().find(|(c, _)| *c == 1) {
+                Some((_, Ok(r))) => r.target.clone(),
+                other => return violation("backslash:second-hop-malformed", format!("{:?} ({})", other.map(|x| x.1.as_ref().err()), desc)),
+            };
+            let names_b = target.contains("//b.test");
+            // the host the second request is for, as its target and peer tell
+            let for_b = names_b || second == b_ip;
+            let ok = if for_b {
+                // b.test: through the proxy unless it is the exempt host
+                if a_direct { second == p_ip && names_b } else { second == b_ip }
+            } else {
+                // still a.test (the backslashes read as path): a.test's decision
+                if a_direct { second == a_ip } else { second == p_ip && target.contains("//a.test") }
+            };
+            if ok {
+                Verdict::Pass
+            } else {
+                violation(
+                    "backslash:hop-under-the-other-host's-proxy-decision",
+                    format!("the second hop dialled {} with target {:?}: a request for {} that {} ({})", conns[1].addr, target, if for_b { "b.test" } else { "a.test" }, if second == p_ip { "went through the proxy although that host is exempt" } else { "went direct although that host is to be proxied" }, desc),
+                )
+            }
+        })(),
+    };
+    RunReport { verdict, shape: format!("backslash/{}/{}/a_direct={}", status, spelling.len(), a_direct), nontrivial: true, stats, sched_tape: out.sched_tape, describe: if ctx.describe { desc } else { String::new() } }
+}
+
 pub fn scenario(g: &mut G, ctx: &RunCtx) -> RunReport {
     let mut plan: ReqPlan = reqgen::gen_request(g, if ctx.thorough { 100_000 } else { 20_000 });
     // the first URL's query is part of node 0's identity: keep the caller's params out of the way of routing
@@ -499,6 +606,9 @@ pub fn scenario(g: &mut G, ctx: &RunCtx) -> RunReport {
     }
     if g.chance(1, 16) {
         return downgrade_family(g, ctx);
+    }
+    if g.chance(1, 20) {
+        return backslash_location_family(g, ctx);
     }
     let url0 = gr.nodes[0].url.clone();
     let no_proxy2: Vec<String> = no_proxy.iter().map(|s| s.to_string()).collect();
